@@ -75,6 +75,31 @@ let show_b (l : n list) : string =
   List.iter (fun x -> Buffer.add_string b (Printf.sprintf "%02x" (int_of_n x))) l;
   Buffer.contents b
 
+(* ---- sort keys of label names (Model/BinFormat.v name_key) ----
+   The library orders the label table of a big-endian bin archive by the names as Rust Strings, i.e. by the Unicode
+   scalar values of the DECODED names.  The model works on encoded names and takes the key function as a parameter; the
+   case line carries the keys the library's own decoder assigns, as a trailing token group
+       K <n> B<name> L<scalars> ... (n pairs)
+   produced by the generator (gen/namekeys.py, harness kind sjdec) and removed before the kind's handler sees the tokens
+   (zmain.ml; the harness drops it too).  A name without an entry is its own key (right for ASCII names). *)
+let key_table : (string, n list) Hashtbl.t = Hashtbl.create 64
+let name_key (b : n list) : n list =
+  if Hashtbl.length key_table = 0 then b
+  else match Hashtbl.find_opt key_table (show_b b) with Some k -> k | None -> b
+let strip_keys (toks : string list) : string list =
+  Hashtbl.reset key_table;
+  let rec go acc = function
+    | [] -> List.rev acc
+    | "K" :: cnt :: rest ->
+      let n = int_of_string cnt in
+      let rec fill k l =
+        if k = 0 then () else
+          match l with
+          | name :: key :: r -> Hashtbl.replace key_table name (parse_l key); fill (k - 1) r
+          | _ -> failwith "K group: missing tokens" in
+      fill n rest; List.rev acc
+    | t :: r -> go (t :: acc) r in
+  go [] toks
 
 (* registry of case kinds: each d_<kind>.ml registers its handler *)
 let handlers : (string, string list -> string) Hashtbl.t = Hashtbl.create 64
